@@ -32,13 +32,20 @@ def classes():
             mi.int8, mi.int16, mi.int32, mi.int64, mi.int128]
 
 
+# the specification of each type comes from its NAME (independent of the class hierarchy and attributes under test)
+SPEC = dict([('uint%d' % n, (n, False)) for n in (1, 8, 16, 32, 64, 128)] + [('int%d' % n, (n, True)) for n in (8, 16, 32, 64, 128)])
+
+
 def is_signed(c):
-    import miasmx.tools.modint as mi
-    return issubclass(c, mi.modint)
+    return SPEC[c.__name__][1]
+
+
+def width_of(c):
+    return SPEC[c.__name__][0]
 
 
 def in_range(c, v):
-    n = c.size
+    n = width_of(c)
     if is_signed(c):
         return -(1 << (n - 1)) <= v < (1 << (n - 1))
     return 0 <= v < (1 << n)
@@ -55,9 +62,9 @@ def pair_class(ca, cb):
         return ('s' if is_signed(c) else 'u')
     if ca is int or cb is int:
         rel = 'int'
-    elif ca.size == cb.size:
+    elif width_of(ca) == width_of(cb):
         rel = 'same'
-    elif ca.size < cb.size:
+    elif width_of(ca) < width_of(cb):
         rel = 'narrow-wide'
     else:
         rel = 'wide-narrow'
@@ -110,7 +117,7 @@ def check_binary(sh, op, ca, x, cb, y, record=True):
     wit = {'op': op, 'ta': tname(ca), 'x': x, 'tb': tname(cb), 'y': y}
     if isinstance(got, mi.moduint):
         rc = got.__class__
-        n = rc.size
+        n = width_of(rc)
         if (int(got) - exact) % (1 << n):
             sh.violation('%s/%s/value' % (pc, op), '%s(%d) %s %s(%d) = %r, exact %d mod 2^%d = %d' % (
                 tname(ca), x, op, tname(cb), y, got, exact, n, exact % (1 << n)), wit)
@@ -123,13 +130,13 @@ def check_binary(sh, op, ca, x, cb, y, record=True):
             if rc is not want_c:
                 sh.violation('%s/%s/type' % (pc, op), '%s %s %s gives %s, expected the fixed-width type %s' % (
                     tname(ca), op, tname(cb), rc.__name__, want_c.__name__), wit)
-        elif ca.size != cb.size:
-            wide = ca if ca.size > cb.size else cb
+        elif width_of(ca) != width_of(cb):
+            wide = ca if width_of(ca) > width_of(cb) else cb
             if rc is not wide:
                 sh.violation('%s/%s/type' % (pc, op), '%s %s %s gives %s, expected the wider type %s' % (
                     tname(ca), op, tname(cb), rc.__name__, wide.__name__), wit)
         else:
-            if rc.size != ca.size:
+            if width_of(rc) != width_of(ca):
                 sh.violation('%s/%s/type' % (pc, op), '%s %s %s gives %s' % (tname(ca), op, tname(cb), rc.__name__), wit)
     else:
         # plain result (documented for int ** modint): congruence can only be checked as equality
@@ -148,7 +155,7 @@ def check_unary(sh, op, ca, x):
     wit = {'op': op, 'ta': tname(ca), 'x': x}
     pc = ('s' if is_signed(ca) else 'u')
     # constructor normalisation itself
-    n = ca.size
+    n = width_of(ca)
     if (xa - x) % (1 << n) or not in_range(ca, a.arg):
         sh.violation('%s/init/%s' % (pc, 'value' if (xa - x) % (1 << n) else 'range'),
                      '%s(%d) holds %d' % (tname(ca), x, a.arg), wit)
@@ -167,7 +174,7 @@ def check_unary(sh, op, ca, x):
         return
     exact = {'~': ~xa, 'neg': -xa, 'abs': abs(xa)}[op]
     if isinstance(got, mi.moduint):
-        if (int(got) - exact) % (1 << got.size):
+        if (int(got) - exact) % (1 << width_of(got.__class__)):
             sh.violation('%s/%s/value' % (pc, op), '%s %s(%d) = %r, exact %d' % (op, tname(ca), x, got, exact), wit)
         if not in_range(got.__class__, got.arg):
             sh.violation('%s/%s/range' % (pc, op), '%s %s(%d) = %r out of range' % (op, tname(ca), x, got), wit)
@@ -182,7 +189,7 @@ def bset(c):
     if c is int:
         return [0, 1, 2, 3, 7, 8, 9, 127, 128, 255, 256, 65535, 65536, 2 ** 31 - 1, 2 ** 31, 2 ** 32 - 1, 2 ** 32,
                 2 ** 64 - 1, 2 ** 64, 2 ** 128 - 1, 2 ** 128, -1, -2, -128, -129, -2 ** 31, -2 ** 31 - 1, -2 ** 63, -2 ** 127]
-    n = c.size
+    n = width_of(c)
     vs = {0, 1, 2, (1 << (n - 1)) - 1, 1 << (n - 1), (1 << n) - 2, (1 << n) - 1, n - 1, n, n + 1}
     vs = set(v % (1 << n) for v in vs)
     if is_signed(c):
@@ -265,8 +272,8 @@ def run_shard(shard, tier, seed):
             vals = set(bset(c))
             rng = common.rng_for(seed, 'C14u', c.__name__)
             for _ in range(200):
-                vals.add(rng.getrandbits(c.size + 3) - (1 << (c.size + 1)))
-            if c.size == 8:
+                vals.add(rng.getrandbits(width_of(c) + 3) - (1 << (width_of(c) + 1)))
+            if width_of(c) == 8:
                 vals |= set(range(-300, 600))
             for x in sorted(vals):
                 for op in UNOPS:
@@ -277,7 +284,7 @@ def run_shard(shard, tier, seed):
         # boundary counts of the statement (n-1, n, n+1, 2n, 4096) on every class, result still exact mod 2^n
         for c in cls:
             for x in bset(c):
-                for cnt in (c.size - 1, c.size, c.size + 1, 2 * c.size, 255, 4096):
+                for cnt in (width_of(c) - 1, width_of(c), width_of(c) + 1, 2 * width_of(c), 255, 4096):
                     for op in ('<<', '>>'):
                         a = c(x)
                         exact = BINOPS[op](int(a), cnt)
@@ -288,7 +295,7 @@ def run_shard(shard, tier, seed):
                                          '%s(%d) %s %d raised %r' % (c.__name__, x, op, cnt, e), {'op': op, 'ta': c.__name__, 'x': x, 'tb': 'int', 'y': cnt})
                             continue
                         sh.case((op, c.__name__, x, 'int', cnt), cls='bigshift:%s' % op)
-                        if (int(got) - exact) % (1 << c.size) or not in_range(c, got.arg) or got.__class__ is not c:
+                        if (int(got) - exact) % (1 << width_of(c)) or not in_range(c, got.arg) or got.__class__ is not c:
                             sh.violation('%s,int/int/%s/value' % ('s' if is_signed(c) else 'u', op),
                                          '%s(%d) %s %d = %r, exact %d' % (c.__name__, x, op, cnt, got, exact),
                                          {'op': op, 'ta': c.__name__, 'x': x, 'tb': 'int', 'y': cnt})
@@ -305,11 +312,11 @@ def run_shard(shard, tier, seed):
             def draw(c):
                 if c is int:
                     return rng.getrandbits(rng.choice((3, 8, 16, 33, 64, 130))) - rng.choice((0, 0, 1 << 7, 1 << 31))
-                v = rng.getrandbits(c.size)
+                v = rng.getrandbits(width_of(c))
                 if rng.random() < 0.3:
                     v = rng.choice(bset(c))
-                if is_signed(c) and v >= (1 << (c.size - 1)):
-                    v -= 1 << c.size
+                if is_signed(c) and v >= (1 << (width_of(c) - 1)):
+                    v -= 1 << width_of(c)
                 return v
             x, y = draw(ca), draw(cb)
             if op in ('<<', '>>', '**') and rng.random() < 0.8:
